@@ -1,4 +1,4 @@
-CONSTANTS B = 16  MAXB = 512
+CONSTANTS B = 16  MAXB = 528
 SPECIFICATION TSpec
 POSTCONDITION Accepted
 CHECK_DEADLOCK FALSE
